@@ -18,6 +18,7 @@ func (e *Engine) copyFieldObligations() []*Obligation {
 	var names []string
 	names = append(names, e.implsOf("EDNS0.copy")...)
 	names = append(names, e.implsOf("SVCBKeyValue.copy")...)
+	names = append(names, "(*APLPrefix).copy")
 	sortStrings(names)
 	var out []*Obligation
 	for _, n := range names {
